@@ -4,6 +4,8 @@ import (
 	"fmt"
 	"testing/synctest"
 
+	"github.com/orda-io/orda/client/pkg/model"
+
 	"verif/sim/kernel"
 )
 
@@ -15,6 +17,7 @@ func (r *run) startSync(a *actor) bool {
 		return false
 	}
 	a.syncing++
+	a.synced = true
 	a.mu.Unlock()
 	go func() {
 		var err error
@@ -126,6 +129,14 @@ func (r *run) syncEvent(as []*actor, e Ev) {
 		}
 	}
 	synctest.Wait()
+	if r.on("entry") {
+		w.tick(0)
+		for _, c := range calls {
+			if c.state == "finished" {
+				r.mon.checkEntries(r, c)
+			}
+		}
+	}
 	if shadow != nil {
 		if shadow.state == "queued" {
 			f2 := &focus{calls: map[*call]bool{shadow: true}, owners: map[string]bool{callOwner(shadow): true}}
@@ -176,6 +187,9 @@ func (r *run) finalDrain() {
 	for ; rounds < 8 && !quiet; rounds++ {
 		before := r.mon.traffic
 		for _, a := range w.actors {
+			if r.prop == "C18" && a.realtime && allSubscribed(a) {
+				continue // realtime clients that completed their first sync have to converge by themselves
+			}
 			r.syncEvent([]*actor{a}, Ev{T: "sync"})
 			r.settle(nil)
 			r.checkClientCrash()
@@ -221,4 +235,13 @@ func clientCrashSite(e string) string {
 		}
 	}
 	return s
+}
+
+func allSubscribed(a *actor) bool {
+	for _, d := range a.dts {
+		if d.dt.GetState() != model.StateOfDatatype_SUBSCRIBED {
+			return false
+		}
+	}
+	return true
 }
